@@ -108,3 +108,51 @@ def enum_int_values(relpath, clsname):
             else:
                 return None
     return out or None
+
+
+def module_constants(relpath):
+    """module-level names bound exactly once, at the top level of the module, to a literal (number, string, bool, None, possibly signed, or a tuple of
+    those) and never declared `global` in a function: their value is the same at every call, so a function body may read them as constants"""
+    tree, _ = module_ast(relpath)
+    counts, values = {}, {}
+
+    def literal(n):
+        if isinstance(n, ast.Constant):
+            return True, n.value
+        if isinstance(n, ast.UnaryOp) and isinstance(n.op, (ast.USub, ast.UAdd)) and isinstance(n.operand, ast.Constant) and isinstance(n.operand.value, (int, float)):
+            return True, (-n.operand.value if isinstance(n.op, ast.USub) else n.operand.value)
+        if isinstance(n, ast.Tuple):
+            parts = [literal(e) for e in n.elts]
+            if all(ok for ok, _ in parts):
+                return True, tuple(v for _, v in parts)
+        return False, None
+    for st in tree.body:
+        targets = []
+        if isinstance(st, ast.Assign):
+            targets = [t for t in st.targets]
+            val = st.value
+        elif isinstance(st, ast.AnnAssign) and st.value is not None:
+            targets, val = [st.target], st.value
+        elif isinstance(st, (ast.AugAssign,)):
+            targets, val = [st.target], None
+        for t in targets:
+            for nm in ast.walk(t):
+                if isinstance(nm, ast.Name):
+                    counts[nm.id] = counts.get(nm.id, 0) + 1
+                    if isinstance(t, ast.Name) and val is not None:
+                        ok, v = literal(val)
+                        if ok:
+                            values[nm.id] = v
+    rebound = set()
+    for n in ast.walk(tree):
+        if isinstance(n, ast.Global):
+            rebound.update(n.names)
+        elif isinstance(n, (ast.For, ast.With, ast.Import, ast.ImportFrom, ast.FunctionDef, ast.ClassDef)) and n in tree.body:
+            for sub in ast.walk(n):
+                if isinstance(sub, ast.Name) and isinstance(sub.ctx, ast.Store):
+                    rebound.add(sub.id)
+                elif isinstance(sub, ast.alias):
+                    rebound.add((sub.asname or sub.name).split('.')[0])
+            if isinstance(n, (ast.FunctionDef, ast.ClassDef)):
+                rebound.add(n.name)
+    return {k: v for k, v in values.items() if counts.get(k) == 1 and k not in rebound}
